@@ -59,9 +59,10 @@ def handle (line : String) : String :=
     -- reference closure: a contract of schemars' generator + dropshot's bookkeeping, no model;
     -- the specification is simply "nothing dangles"
     match impl with
-    | [nops, nrefs, nunres, _nschemas, _names] =>
+    | [nops, nrefs, nunres, _nschemas, _names, sameTwice, samePerm] =>
       let cls := s!"refs-ops{if nops == "0" then "0" else "n"}-refs{if nrefs == "0" then "0" else "n"}-{if order.splitOn "," |>.length |> (· ≥ 11) then "full" else "subset"}"
-      out id true (b2s (nunres == "0")) cls "-" "-"
+      -- nothing dangles; regenerating gives the same bytes; so does another registration order
+      out id true (b2s (nunres == "0" && sameTwice == "1" && samePerm == "1")) cls "-" "-"
     | _ => bad id "parse-refs"
   | _ => bad "?" "unknown-stream"
 
